@@ -27,6 +27,8 @@ extern "C" __attribute__((used, noinline)) const char* __asan_default_options() 
 }
 #endif
 
+extern "C" void sonic_verif_sim_point(int) {}  // scheduler yield points are only used by the thread harness
+
 static uint64_t* g_status = nullptr;   // [0]=current run, [1]=runs done, [2]=current op (best effort)
 static bool g_replay_mode = false;
 static std::string g_prop;
